@@ -10,13 +10,13 @@ namespace Rpcx.Props.C05
 open Rpcx Rpcx.Mux
 
 /-- never signalled twice -/
-theorem at_most_once (oneways : List Bool) (evs : List Ev) (c : Nat) (r : CallRec)
+theorem at_most_once (oneways : List (Bool × Bool)) (evs : List Ev) (c : Nat) (r : CallRec)
     (h : (run (init oneways) evs).calls[c]? = some r) : r.signals ≤ 1 :=
   (inv_run _ (inv_init oneways) evs).sig c r h
 
 /-- ownership: whoever removes a call from the pending table signals it, and nobody else –
     a call still in the table has not been signalled -/
-theorem pending_unsignalled (oneways : List Bool) (evs : List Ev) (q c : Nat)
+theorem pending_unsignalled (oneways : List (Bool × Bool)) (evs : List Ev) (q c : Nat)
     (h : (q, c) ∈ (run (init oneways) evs).pending) :
     ∃ r, (run (init oneways) evs).calls[c]? = some r ∧ r.signals = 0 :=
   let ⟨r, h1, h2, _⟩ := (inv_run _ (inv_init oneways) evs).pend q c h
@@ -24,14 +24,14 @@ theorem pending_unsignalled (oneways : List Bool) (evs : List Ev) (q c : Nat)
 
 /-- no lost call: a registered call that has not completed is still in the table, where the
     reader, Close, its own sender or its own waiter will find it -/
-theorem not_lost (oneways : List Bool) (evs : List Ev) (c q : Nat) (r : CallRec)
+theorem not_lost (oneways : List (Bool × Bool)) (evs : List Ev) (c q : Nat) (r : CallRec)
     (h : (run (init oneways) evs).calls[c]? = some r) (hp : r.phase = .registered q) (hs : r.signals = 0) :
     (q, c) ∈ (run (init oneways) evs).pending :=
   (inv_run _ (inv_init oneways) evs).held c r q h hp hs
 
 /-- once the connection is lost or the client closed, nothing is left hanging: the table is
     empty, so every registered call has been signalled exactly once -/
-theorem drained (oneways : List Bool) (evs : List Ev)
+theorem drained (oneways : List (Bool × Bool)) (evs : List Ev)
     (hd : (run (init oneways) evs).shutdown = true ∨ (run (init oneways) evs).closing = true) :
     (run (init oneways) evs).pending = []
     ∧ ∀ (c : Nat) (r : CallRec) (q : Nat), (run (init oneways) evs).calls[c]? = some r → r.phase = Phase.registered q → r.signals = 1 := by
@@ -59,41 +59,34 @@ theorem close_sets_flag (s : St) : (step s .close).closing = true ∨ (step s .c
   · left; rfl
 
 /-- fail fast: a call started after the connection was lost or the client closed completes at
-    once with the shutdown error, exactly one signal, and never enters the table -/
+    once with an error – the shutdown error for Go/Call, the error of its write to the closed
+    connection for SendRaw – exactly one signal, and never stays in the table -/
 theorem fail_fast (s : St) (c : Nat) (r : CallRec) (hr : s.calls[c]? = some r) (hf : r.phase = .fresh)
     (hs0 : r.signals = 0) (hd : s.shutdown = true ∨ s.closing = true) :
     (step s (.register c)).pending = s.pending
-    ∧ ∃ r', (step s (.register c)).calls[c]? = some r' ∧ r'.signals = 1 ∧ r'.outcome = some .shutdownErr := by
+    ∧ ∃ r', (step s (.register c)).calls[c]? = some r' ∧ r'.signals = 1 ∧
+        r'.outcome = some (if r.raw then .connErr else .shutdownErr) := by
   have hd' : (s.shutdown || s.closing) = true := by simpa using hd
   simp only [step, hr, hf, ne_eq, not_true_eq_false, if_false, hd', if_true]
-  refine ⟨trivial, { bump .shutdownErr r with phase := .finished }, ?_, by simp [bump, hs0], by simp [bump]⟩
-  rw [setPhase_get, signal_get]
-  simp [hr]
+  refine ⟨trivial, ?_⟩
+  by_cases hraw : r.raw = true
+  · simp only [hraw, if_true]
+    refine ⟨{ { bump .connErr r with phase := .finished } with ret := some .connErr }, ?_, by simp [bump, hs0], by simp [bump]⟩
+    rw [setRet_get, setPhase_get, signal_get]
+    simp [hr]
+  · have hraw' : r.raw = false := by simpa using hraw
+    simp only [hraw', Bool.false_eq_true, if_false]
+    refine ⟨{ bump .shutdownErr r with phase := .finished }, ?_, by simp [bump, hs0], by simp [bump]⟩
+    rw [setPhase_get, signal_get]
+    simp [hr]
 
 /-- flags are monotone: shutdown, once set, stays set (so "new calls fail promptly" persists) -/
 theorem shutdown_monotone (s : St) (ev : Ev) (h : s.shutdown = true) : (step s ev).shutdown = true := by
-  cases ev <;> simp only [step]
-  case register c => split <;> (try exact h) <;> split <;> (try exact h) <;> split <;> exact h
-  case encodeFail c => split <;> (try exact h) <;> split <;> (try exact h) <;> (simp only [removeAndSignal]; split <;> (try split) <;> exact h)
-  case writeFail c => split <;> (try exact h) <;> split <;> (try exact h) <;> (simp only [removeAndSignal]; split <;> (try split) <;> exact h)
-  case writeOk c =>
-    split <;> (try exact h) <;> split <;> (try exact h)
-    split
-    · simp only [removeAndSignal]; split <;> (try split) <;> exact h
-    · exact h
-  case ctxDone c =>
-    split <;> (try exact h)
-    split
-    · exact h
-    · simp only [markRet, ctxRemove]
-      split <;> split <;> (try split) <;> (try split) <;> exact h
-  case frame f => simp [h]
-  case terminate => simp [h]
-  case close => split <;> simp [failAll, h]
+  cases ev <;> simp only [step, removeAndSignal, markRet, ctxRemove, failAll] <;> (repeat' split) <;> (first | exact h | simp [h])
 
 /-- non-vacuity: peer close in the middle, then Close: one signal each, nothing pending -/
-example : ((run (init [false, false]) [.register 0, .writeOk 0, .register 1, .terminate, .close]).calls.map (·.signals)) = [1, 1]
-    ∧ (run (init [false, false]) [.register 0, .writeOk 0, .register 1, .terminate, .close]).pending = [] := by decide
+example : ((run (init (plain [false, false])) [.register 0, .writeOk 0, .register 1, .terminate, .close]).calls.map (·.signals)) = [1, 1]
+    ∧ (run (init (plain [false, false])) [.register 0, .writeOk 0, .register 1, .terminate, .close]).pending = [] := by decide
 
 /-! ### the model's atomic steps are the code's critical sections (regenerated facts) -/
 
